@@ -118,7 +118,9 @@ def from_hypergraph_dict(data, nodetype=None, edgetype=None, max_order=None):
                     raise TypeError(
                         f"Failed to convert edge IDs to type {nodetype}."
                     ) from e
-            H.add_node(idx, **dd)
+            # not as keyword arguments: an attribute may be called "node" or "self"
+            H.add_node(idx)
+            H.set_node_attributes({idx: dd})
     except KeyError:
         raise XGIError("Failed to import node attributes.")
 
